@@ -55,7 +55,7 @@ def to_jsonable(o):
     if isinstance(o, np.ndarray):
         if np.iscomplexobj(o):
             return {"__c__": [[float(z.real), float(z.imag)] for z in o.ravel()],
-                    "shape": list(o.shape)}
+                    "shape": list(o.shape), "dtype": str(o.dtype)}
         return {"__a__": [to_jsonable(v) for v in o.ravel().tolist()], "shape": list(o.shape),
                 "dtype": str(o.dtype)}
     if isinstance(o, (np.integer,)):
@@ -74,7 +74,7 @@ def to_jsonable(o):
 def from_jsonable(o):
     if isinstance(o, dict):
         if "__c__" in o:
-            return np.array([complex(a, b) for a, b in o["__c__"]], dtype=complex).reshape(o["shape"])
+            return np.array([complex(a, b) for a, b in o["__c__"]], dtype=o.get("dtype", "complex128")).reshape(o["shape"])
         if "__a__" in o:
             return np.array(o["__a__"], dtype=o.get("dtype", "float64")).reshape(o["shape"])
         if "__z__" in o:
